@@ -24,7 +24,8 @@ OTHER = [101, 103, 107, 109, 113, 127, 131, 137, 139, 149, 151, 157, 163, 167, 1
 INT_HISTS = ["fresh", "reuse", "copycold", "copywarm", "copy2", "assigncold", "assignwarm", "freshtt"]
 DOM_HISTS = ["fresh", "reuse", "copycold", "copywarm", "copy2", "assigncold", "assignwarm", "setcold", "setwarm"]
 FIX_HISTS = ["fresh", "reuse", "assigncold", "assignwarm"]
-POLY_HISTS = ["fresh", "reuse", "copycold", "copywarm"]
+POLY_HISTS = ["fresh", "reuse", "copycold", "copywarm", "copy2"]
+POLY_DOMS = ["mi64", "mdouble", "mi32", "mu32"]
 DOMS = ["mdouble", "mi64", "mu64", "mi32", "mint", "mfloat", "mu32", "mont32", "mru7", "mlog16", "mb64", "mbd"]
 BALANCED = ("mb64", "mbd")        # residues and digits are the representatives of least absolute value
 FIX_COPY_HISTS = ["copycold", "copywarm", "copy2", "copyassign"]
@@ -317,6 +318,25 @@ def run_par(binary, lines, nproc=6, timeout=1500):
     return 0, res, err
 
 
+def run_resilient(binary, lines, timeout=1500, max_restarts=40):
+    """run the implementation harness; when it dies on a line (segfault, abort) record CRASH for that line and go on
+    with the next one, so that a crashing input is reported as a concrete failing input"""
+    out, start, restarts, err = [], 0, 0, ""
+    while start < len(lines):
+        rc, o, e = vf.run_lines(binary, "".join(l + "\n" for l in lines[start:]), timeout=timeout)
+        err += e[-500:]
+        out += o[:len(lines) - start]
+        if len(out) >= len(lines):
+            break
+        restarts += 1
+        out.append("CRASH rc=%s" % rc)
+        start = len(out)
+        if restarts >= max_restarts:
+            out += ["CRASH-LIMIT"] * (len(lines) - len(out))
+            break
+    return out, restarts, err
+
+
 def groups(line):
     return [g.split() for g in line.split("|")]
 
@@ -429,7 +449,7 @@ def main(tier, replay=None):
     add_sys("int", "copycold", "Integer", [3, 5, 7], [1, 2, 3], 100)
     add_sys("int", "fresh", "Integer", [3, 5, 7], [1, 2, 3], 100)
     # ---- RNSsystemFixed<Integer>
-    for rnd in range(8 if quick else 80):
+    for rnd in range(20 if quick else 150):
         for hist in FIX_HISTS:
             n = rng.choice([1, 2, 3, 4, 5, 6, 7, 8, 9, 11, 15, 16, 17, 31, 33] if not rng.chance(1, 6) else lens_big)
             style = rng.choice(["smallprimes", "word", "multilimb", "powers", "tiny" if n < 12 else "smallprimes"])
@@ -477,10 +497,15 @@ def main(tier, replay=None):
         e = rng.choice([0, D - 1, rng.below(D), rng.below(D)])
         add_cra(dom, not rng.chance(1, 4), M, D, A, e)
     # ---- Poly1CRT over GF(p)
-    for rnd in range(25 if quick else 400):
+    for rnd in range(20 if quick else 400):
         for hist in POLY_HISTS:
-            p = rng.choice([2, 3, 5, 7, 101, 65521, 2147483647, 4294967291, rng.choice(SMALL_PRIMES)])
+            pdom = rng.choice(POLY_DOMS)
+            pmax = maxcard[pdom]
+            p = rng.choice([q for q in [2, 3, 5, 7, 11, 101, 251, 65521, 2147483647, 4294967291, 94906249, rng.choice(SMALL_PRIMES), rng.choice(SMALL_PRIMES)]
+                            if q <= pmax])
             n = rng.range(1, min(p, 9 if quick else 20))
+            if rng.chance(1, 10):
+                n = min(p, 12)                    # all of GF(p) as points when p is tiny
             pts = []
             while len(pts) < n:
                 x = rng.below(p) if p > 50 else rng.below(p)
@@ -491,9 +516,9 @@ def main(tier, replay=None):
                 rs = [rs[0]] * n                  # constant polynomial: all higher coefficients vanish
             d = rng.range(0, 2 * n)
             cs = [rng.below(p) for _ in range(d + 1)]
-            il = "poly %s %d %d %s %s %d %s" % (hist, p, n, " ".join(map(str, pts)), " ".join(map(str, rs)), d, " ".join(map(str, cs)))
+            il = "poly %s %s %d %d %s %s %d %s" % (hist, pdom, p, n, " ".join(map(str, pts)), " ".join(map(str, rs)), d, " ".join(map(str, cs)))
             ml = "poly %d %d %s %s %d %s" % (p, n, " ".join(map(str, pts)), " ".join(map(str, rs)), d, " ".join(map(str, cs)))
-            cases.append({"kind": "poly", "hist": hist, "sub": "", "p": p, "pts": pts, "rs": rs, "cs": cs, "impl": il, "model": ml})
+            cases.append({"kind": "poly", "hist": hist, "sub": pdom, "p": p, "pts": pts, "rs": rs, "cs": cs, "impl": il, "model": ml})
 
     if replay:
         rp = json.load(open(replay))
@@ -504,11 +529,11 @@ def main(tier, replay=None):
     # ---- run both sides
     import time
     t1 = time.time()
-    rc, iout, ierr = vf.run_lines(himpl, "".join(c["impl"] + "\n" for c in cases), timeout=1500)
-    vf.log("[C14] %d cases generated in %.1fs, implementation ran in %.1fs" % (len(cases), t1 - chk.t0, time.time() - t1))
+    iout, ncrash, ierr = run_resilient(himpl, [c["impl"] for c in cases])
+    vf.log("[C14] %d cases generated in %.1fs, implementation ran in %.1fs (%d crashes)" % (len(cases), t1 - chk.t0, time.time() - t1, ncrash))
     t1 = time.time()
-    if rc != 0 or len(iout) != len(cases):
-        chk.broke("implementation harness failed (rc=%s, %d/%d lines)" % (rc, len(iout), len(cases)), ierr)
+    if len(iout) != len(cases):
+        chk.broke("implementation harness failed (%d/%d lines)" % (len(iout), len(cases)), ierr)
         return chk.finish()
     mout = None
     if drv:
@@ -522,6 +547,7 @@ def main(tier, replay=None):
     ncorr = 0
     dist = {}
     nbroke = 0
+    PCXX = {"mi64": "Modular<int64_t>", "mdouble": "Modular<double>", "mi32": "Modular<int32_t>", "mu32": "Modular<uint32_t>"}
     CXX = {"mdouble": "Modular<double>", "mi64": "Modular<int64_t>", "mu64": "Modular<uint64_t>", "mi32": "Modular<int32_t>",
            "mint": "Modular<Integer>", "mfloat": "Modular<float>", "mu32": "Modular<uint32_t>", "mont32": "Montgomery<int32_t>",
            "mru7": "Modular<ruint<7>>", "mlog16": "Modular<Log16>", "mb64": "ModularBalanced<int64_t>", "mbd": "ModularBalanced<double>"}
@@ -544,7 +570,14 @@ def main(tier, replay=None):
         spec_ok = True
         exp_toks = None          # full expected output when the specification determines it
         try:
-            if kind in ("int", "rns"):
+            if il.startswith(("CRASH", "EXCEPTION", "BAD-")):
+                spec_ok = False
+                cls = {"int": "IntRNSsystem", "rns": "RNSsystem<Integer,%s>" % CXX.get(c.get("sub"), "?"), "fixed": "RNSsystemFixed<Integer>",
+                       "cra": "ChineseRemainder", "poly": "Poly1CRT<%s>" % PCXX.get(c.get("sub"), "?")}[kind]
+                chk.count((kind, "crash", i), nontrivial=False)
+                chk.fail_input(cls + " (process died or threw)", "obtained by %s" % c.get("hist", ""), c, "a result", il,
+                               "the implementation crashed / threw on this input")
+            elif kind in ("int", "rns"):
                 ps, rs, a = c["ps"], c["rs"], c["a"]
                 n = len(ps)
                 V = crt_oracle(ps, rs)
@@ -601,14 +634,19 @@ def main(tier, replay=None):
                     chk.fail_input(site, "outside the proved range", c, "A <= res <= A + (D-1)^2 M", il, "")
             elif kind == "poly":
                 p, pts, rs, cs = c["p"], c["pts"], c["rs"], c["cs"]
-                exp = [lagrange(p, pts, rs), [peval(p, cs, x) for x in pts]]
+                cko = []
+                for k in range(1, len(pts)):       # ck_k = prod_{j<k} (X - a_j) / prod_{j<k} (a_k - a_j)
+                    ck = lagrange(p, pts[:k + 1], [0] * k + [1])
+                    cko += [len(ck) - 1] + ck
+                exp = [lagrange(p, pts, rs), [peval(p, cs, x) for x in pts], [len(pts)] + pts, cko, [1]]
                 exp_toks = flat(exp)
                 got = [ints(g) for g in groups(il)]
-                chk.count((kind, c["hist"], p, tuple(pts), tuple(rs)), nontrivial=(len(pts) >= 2 and any(rs)))
+                chk.count((kind, c["sub"], c["hist"], p, tuple(pts), tuple(rs)), nontrivial=(len(pts) >= 2 and any(rs)))
                 if got != exp:
                     spec_ok = False
-                    which = "RnsToRing" if got[:1] != exp[:1] else "RingToRns"
-                    chk.fail_input("Poly1CRT<Modular<int64_t>>::" + which, "obtained by %s, %d points" % (c["hist"], len(pts)), c, exp, il,
+                    names = ["RnsToRing", "RingToRns", "size/ith", "Reciprocals", "RnsToRing(second call)"]
+                    which = ([names[j] for j in range(min(len(exp), len(got))) if got[j] != exp[j]] or ["shape"])[0]
+                    chk.fail_input("Poly1CRT<%s>::%s" % (PCXX[c["sub"]], which), "obtained by %s, %d points" % (c["hist"], len(pts)), c, exp, il,
                                    "differs from Lagrange interpolation / evaluation over GF(p)")
         except (ValueError, ZeroDivisionError) as ex:
             spec_ok = False
@@ -638,9 +676,9 @@ def main(tier, replay=None):
     else:
         fc = [c for c in cases if c["kind"] == "fixed"][:400]
         fh = [FIX_COPY_HISTS[j % len(FIX_COPY_HISTS)] for j in range(len(fc))]
-        rc, fo, fe = vf.run_lines(hfix, "".join("%s %s\n" % (h, c["model"].split(" ", 1)[1]) for h, c in zip(fh, fc)), timeout=600)
-        if rc != 0 or len(fo) != len(fc):
-            chk.broke("c14_fixedcopy failed (rc=%s)" % rc, fe)
+        fo, _, fe = run_resilient(hfix, ["%s %s" % (h, c["model"].split(" ", 1)[1]) for h, c in zip(fh, fc)], timeout=600)
+        if len(fo) != len(fc):
+            chk.broke("c14_fixedcopy failed", fe)
         else:
             for h, c, l in zip(fh, fc, fo):
                 V = crt_oracle(c["ps"], c["rs"])
